@@ -291,14 +291,16 @@ fn p9(faulty: bool) {
     let mut cfg = vec![0u8; 2 + n];
     cfg[0..2].copy_from_slice(&(n as u16).to_le_bytes());
     cfg[2..].copy_from_slice(tag.as_bytes());
-    zoo::setup_device(Kind::P9, common_feats(tk) | choose(2), cfg);
+    // VIRTIO_9P_MOUNT_TAG (bit 0): without it the device has no (valid) tag
+    let tagged = !flip(1, 4);
+    zoo::setup_device(Kind::P9, common_feats(tk) | tagged as u64, cfg);
     with(|w| {
         let mut d = P9Dev::new();
         d.bad_size = faulty;
         w.dev = Some(Box::new(d));
     });
     oplog(|| format!("VirtIO9p over {tk:?}, tag {tag:?}, faulty {faulty}"));
-    if let Err(e) = zoo::with_transport(tk, P9Run { tag }) {
+    if let Err(e) = zoo::with_transport(tk, P9Run { tag: if tagged { tag } else { String::new() } }) {
         violation("transport-construction-failed", "zoo", e);
     }
 }
